@@ -17,7 +17,7 @@ import common
 import proto2coq
 from common import Rng, coq_list
 
-PROP_FILES = ["theories/Properties/C09.v", "theories/Properties/C09Gen.v"]
+PROP_FILES = ["theories/Properties/C09.v", "theories/Properties/C09Typed.v", "theories/Properties/C09Gen.v"]
 WORK = os.path.join(common.BUILD, "C09")
 SCHEMA_JSON = os.path.join(WORK, "schema.json")
 U64 = 1 << 64
@@ -152,6 +152,32 @@ def i64_as_u64(x):
     return x & (U64 - 1)
 
 
+def special_ip(r):
+    """IPv4 / IPv6 addresses incl. the boundary classes: unspecified, loopback, broadcast, IPv4-mapped and
+    IPv4-compatible IPv6, link-local (scoped), multicast"""
+    k = r.below(12)
+    v4 = bytes(r.below(256) for _ in range(4))
+    if k == 0:
+        return bytes(4)
+    if k == 1:
+        return bytes([255] * 4)
+    if k == 2:
+        return bytes([127, 0, 0, 1])
+    if k == 3:
+        return bytes(16)
+    if k == 4:
+        return bytes(15) + b"\x01"
+    if k in (5, 6):
+        return bytes(10) + b"\xff\xff" + v4              # ::ffff:a.b.c.d
+    if k == 7:
+        return bytes(12) + v4                             # ::a.b.c.d
+    if k == 8:
+        return b"\xfe\x80" + bytes(6) + bytes(r.below(256) for _ in range(8))
+    if k == 9:
+        return b"\xff\x02" + bytes(13) + b"\x01"
+    return bytes(r.below(256) for _ in range(r.choice([4, 16])))
+
+
 class Gen:
     def __init__(self, sc, rng, pool):
         self.sc, self.rng, self.pool = sc, rng, pool
@@ -214,7 +240,7 @@ class Gen:
         if key == ("zksync.roles.node.Signature", "ed25519"):
             return ("len", bytes.fromhex(r.choice(P["nsig"])))
         if key == ("zksync.std.SocketAddr", "ip"):
-            return ("len", bytes(r.below(256) for _ in range(r.choice([4, 16]))))
+            return ("len", special_ip(r))
         if key == ("zksync.std.SocketAddr", "port"):
             return ("var", r.choice([0, 1, 80, 65535, r.below(65536)]))
         if mname in ("zksync.std.Timestamp", "zksync.std.Duration") and fd["name"] == "seconds":
@@ -237,7 +263,7 @@ class Gen:
 
     def bitvector(self):
         r = self.rng
-        n = r.choice([0, 1, 7, 8, 9, 16, 17, r.range(0, 130), r.range(0, 130)])
+        n = r.choice([0, 1, 7, 8, 9, 16, 17, 63, 64, 65, r.range(0, 130), r.range(0, 130)])
         bits = [r.below(2) for _ in range(n)]
         by = bytearray((n + 7) // 8)
         for i, b in enumerate(bits):
@@ -564,7 +590,7 @@ def run_inner(rep):
             raise common.MachineryError("translator failed and no previous schema view exists: " + str(e))
         info = json.load(open(SCHEMA_JSON))
     # 2. proofs
-    files = PROP_FILES if translator["status"] == "ok" else PROP_FILES[:1]
+    files = PROP_FILES if translator["status"] == "ok" else PROP_FILES[:2]
     po = common.proof_obligations(files)
     if not po["ok"]:
         broken.append("Coq obligations of " + ",".join(files) + ": " + (po["log_tail"] or str(po["hygiene_problems"] or po["bad_axioms"])))
@@ -592,8 +618,8 @@ def run_inner(rep):
     tsc = Schema(info["test"])
     gen = Gen(sc, rng.fork(), pool)
     tgen = Gen(tsc, rng.fork(), pool)
-    nvals = 6 if tier == "quick" else 30           # values per type
-    nalt = 4 if tier == "quick" else 6
+    nvals = 6 if tier == "quick" else 24           # values per type
+    nalt = 3 if tier == "quick" else 6
     # 4. values, canonical bytes, alternative serialisations
     items = []   # dict(pool, msg, ty, entries, canon, alts[], kind)
     for ty, (mname, arm) in sorted(TYPES.items()):
@@ -604,10 +630,26 @@ def run_inner(rep):
             e = force_signed_arm(e, sc, mname, arm, gen)
             items.append({"pool": "real", "sc": sc, "msg": mname, "ty": ty, "entries": e, "domain": drop == 0,
                           "normalising": gen.normalising})
+    mapped = ("len", bytes(10) + b"\xff\xff" + bytes([10, 1, 2, 3]))          # [::ffff:10.1.2.3]
+    for ty, path in (("std.SocketAddr", [1]), ("validator.NetAddress", [1, 1]), ("validator.Msg", [3, 1, 1]),
+                     ("validator.Signed.net_address", [1, 3, 1, 1]), ("rpc.push_validator_addrs.Req", [1, 1, 3, 1, 1])):
+        mname, arm = TYPES[ty]
+        for _ in range(2):
+            gen.normalising = False
+            if ty == "validator.Msg":
+                e = gen.message(mname, 0, {0: "net_address"}, 0)
+            else:
+                e = force_signed_arm(gen.message(mname, 0, None, 0), sc, mname, arm, gen)
+            if ty == "rpc.push_validator_addrs.Req" and not e:
+                e = [(1, ("msg", force_signed_arm(gen.message("zksync.roles.validator.Signed", 1, None, 0), sc,
+                                                  "zksync.roles.validator.Signed", "net_address", gen)))]
+            e = patch(e, path, mapped)
+            e = patch(e, path[:-1] + [2], ("var", 3054))
+            items.append({"pool": "real", "sc": sc, "msg": mname, "ty": ty, "entries": e, "domain": True, "normalising": False})
     for mname in sorted(tsc.msgs):
         if mname == "verif.c09.Implicit":
             continue
-        for k in range(nvals * 4):
+        for k in range(nvals * 3):
             e = tgen.message(mname, 0, None, 30)
             while len(canon(tsc, mname, e)) > 2500:
                 e = tgen.message(mname, 1, None, 30)
@@ -627,7 +669,7 @@ def run_inner(rep):
                 rt_cases.append({"op": "rt", "ty": it["ty"], "hex": b.hex()})
     # malformed stream
     mrng = rng.fork()
-    nmal = 700 if tier == "quick" else 4000
+    nmal = 500 if tier == "quick" else 4000
     mal_cases, mal_kinds = [], {}
     for _ in range(nmal):
         it = mrng.choice(items)
@@ -781,7 +823,8 @@ def run_inner(rep):
         "schema_diff": schema_diff[:5],
         "observations": [
             "canonical_raw panics (index out of bounds) on a scalar field whose only occurrence is an empty packed chunk, e.g. bytes 12 00 with the ViewV2 descriptor; reproduced by model and implementation alike (Panic PIndex). Not reachable from canonical()/encode(), which only pass prost's own output; the `denote` relation of the theorems excludes empty packed chunks.",
-            "mux Handshake encodes a HashMap in iteration order: excluded from the typed table (neither signed nor stored)"],
+            "mux Handshake encodes a HashMap in iteration order: lossless theorem + decode-only correspondence (neither signed nor stored)",
+            "SocketAddrV6 flowinfo / scope_id: build() writes ip + port only, so decode(encode(x)) has flowinfo = scope_id = 0; for x with non-zero values decode(encode(x)) != x as Rust values while ip and port agree (checked on the implementation: typed constructions with flow/scope != 0 compare ip + port). The property text excludes these fields from the wire format, so this is not a finding."],
         "partial": PARTIAL,
         "exhaustive": False,
     })
@@ -802,17 +845,23 @@ MODELLED = {
 PARTIAL = ("Proved for every schema: canonical_raw maps every reading (`denote`) of a byte string to the canonical bytes of the value read; "
            "the canonical bytes are invariant under reordering of different fields at any depth; for schemas without packed repeated scalars "
            "(all production schemas, checked on the regenerated schema) the canonical bytes of a well-formed sorted value are read back as exactly "
-           "that value and are a fixed point of canonical_raw. `denote` excludes empty packed chunks and packed chunks on singular fields "
-           "(canonical_raw panics on the former, accepts the latter although it is not valid protobuf); byte-level read-back for schemas WITH "
-           "packed repeated scalars (only the synthetic test schema) is covered by correspondence, not by a theorem. "
-           "Typed build/read with round-trip theorems: Duration, Timestamp, SocketAddr, BitVector, View, BlockHeader, ReplicaCommit, CommitQC, "
-           "ReplicaTimeout, TimeoutQC (incl. total order of the transcribed derived Ord and insertion-order irrelevance of the BTreeMap); their "
-           "round trip THROUGH BYTES is the generic theorem C09_typed_roundtrip_bytes whose premise dmsg_ok (entries sorted, sizes below 4 GiB) is "
-           "discharged for a concrete View only, not per type for all values. The other wire/storage types (ProposalJustification, LeaderProposal, "
-           "ReplicaNewView, ChonkyMsg, ConsensusMsg, Msg, Signed, FinalBlock, Block, ReplicaState, Genesis, Schedule, NetAddress, handshakes, RPC "
-           "messages) have no typed model: they are covered by the schema-level theorems, by the canonical_raw correspondence on their real "
-           "descriptors and by the implementation-only predicates (59 type names). prost's decoder is represented by `denote`; keccak and the "
-           "validity of keys/signatures are outside the model; hash_agrees is the corollary 'equal bytes' only.")
+           "that value and are a fixed point of canonical_raw. Closed byte-level theorems decode_T (encode_T v) = Ok v (Properties/C09Typed.v) for "
+           "every value of the domain whose encoding is below 4 GiB, for: Duration, Timestamp, SocketAddr, BitVector/Signers, the keccak hash "
+           "wrappers, View, BlockHeader, ReplicaCommit, CommitQC, ReplicaTimeout, TimeoutQC, ProposalJustification, LeaderProposal, ReplicaNewView, "
+           "ChonkyMsg, ConsensusMsg, NetAddress, Msg, Signed<V> (three variants), FinalBlock, PreGenesisBlock, Block, Proposal, Phase, ChonkyV2State, "
+           "ReplicaState, ValidatorInfo, LeaderSelectionMode, LeaderSelection, Schedule, Genesis(Raw) incl. the protocol-version guard, validator / node "
+           "keys and signatures, node Msg / Signed, gossip and consensus Handshake, preface Encryption / Endpoint, RPC consensus Req/Resp, get_block "
+           "Req/Resp, push_block_store_state Req (BlockStoreState, Last), push_validator_addrs Req, push_tx Req, ping Req/Resp. Domains: u64 fields below "
+           "2^64, hashes 32 bytes, keys / signatures / semver strings accepted by an opaque validity predicate, durations within the encodable range, "
+           "TimeoutQC map and Schedule validators strictly sorted by their key order (the BTreeMap invariant), view number of a justification below "
+           "u64::MAX, protocol_version = 2. NOT covered by typed theorems: std RateLimit and Void (config only), the Genesis.hash cache / GenesisHash "
+           "computation (keccak). "
+           "`denote` (standing for prost's decoder) excludes empty packed chunks and packed chunks on singular fields (canonical_raw panics on the former, "
+           "accepts the latter although it is not valid protobuf); byte-level read-back for schemas WITH packed repeated scalars (only the synthetic "
+           "test schema) is covered by correspondence, not by a theorem. Listing-order independence is proved for the TimeoutQC map (distinct keys) and, "
+           "unconditionally, for Schedule::new (C09_schedule_listing_order_irrelevant). mux Handshake has the lossless theorem only, with a proved "
+           "counterexample to byte determinism. "
+           "keccak and the validity of keys/signatures are outside the model; hash_agrees is the corollary 'equal bytes' only.")
 I64MIN, I64MAX = -(1 << 63), (1 << 63) - 1
 
 
@@ -830,6 +879,16 @@ def pb(*fields):
 
 def std_edge_cases(rng, n):
     cases = []
+    for ip in (bytes(4), bytes([255] * 4), bytes(16), bytes(15) + b"\x01", bytes(10) + b"\xff\xff" + bytes([10, 1, 2, 3]),
+               bytes(12) + bytes([10, 1, 2, 3]), b"\xfe\x80" + bytes(13) + b"\x01"):
+        for port in (0, 3054, 65535):
+            cases.append({"op": "rt", "ty": "std.SocketAddr", "hex": pb((1, 2, ip), (2, 0, port)).hex(), "kind": "edge"})
+    for nbits in (0, 1, 7, 8, 9, 63, 64, 65):
+        by = bytearray((nbits + 7) // 8)
+        for i in range(nbits):
+            if i % 3 != 1:
+                by[i // 8] |= 0x80 >> (i % 8)
+        cases.append({"op": "rt", "ty": "std.BitVector", "hex": pb((1, 0, nbits), (2, 2, bytes(by))).hex(), "kind": "edge"})
     secs = [0, 1, -1, 5, -5, I64MAX, I64MAX - 1, I64MIN, I64MIN + 1, 1 << 62, -(1 << 62), 1700000000]
     nanos = [0, 1, -1, 999999999, -999999999, 1000000000, -1000000000, 2147483647, -2147483648, 500000000,
              (1 << 32) + 7, (1 << 31), 1 << 40]
@@ -850,7 +909,7 @@ def std_edge_cases(rng, n):
             f = [f[1], f[0]]
         cases.append({"op": "rt", "ty": rng.choice(["std.Duration", "std.Timestamp"]), "hex": pb(*f).hex(), "kind": "edge"})
         # socket addresses
-        ip = bytes(rng.below(256) for _ in range(rng.choice([4, 16, 4, 16, 0, 3, 5, 15, 17, 32])))
+        ip = special_ip(rng) if rng.chance(1, 2) else bytes(rng.below(256) for _ in range(rng.choice([4, 16, 0, 3, 5, 15, 17, 32])))
         port = rng.choice([0, 1, 65535, 65536, 65537, (1 << 32) - 1, (1 << 32), (1 << 32) + 80, rng.below(65536)])
         f = [(1, 2, ip), (2, 0, port)]
         if rng.chance(1, 10):
@@ -890,6 +949,16 @@ def build_cases(rng, tier, pool):
     def timeout():
         return {"view": view(), "high_vote": commit() if rng.chance(2, 3) else None, "high_qc": cqc() if rng.chance(1, 2) else None}
 
+    for ip in (bytes(4), bytes([255] * 4), bytes(16), bytes(15) + b"\x01", bytes(10) + b"\xff\xff" + bytes([10, 1, 2, 3]),
+               bytes(12) + bytes([10, 1, 2, 3]), b"\xfe\x80" + bytes(13) + b"\x01"):
+        for port in (0, 3054, 65535):
+            cases.append({"op": "build", "ty": "std.SocketAddr", "ip": ip.hex(), "port": port, "flow": 0, "scope": 0})
+    cases.append({"op": "build", "ty": "std.SocketAddr", "ip": (b"\xfe\x80" + bytes(13) + b"\x01").hex(), "port": 3054, "flow": 7, "scope": 2})
+    for nbits in (0, 1, 7, 8, 9, 63, 64, 65):
+        cases.append({"op": "build", "ty": "std.BitVector", "bits": [1 if i % 3 != 1 else 0 for i in range(nbits)]})
+    for (secs, nan) in ((0, 0), (-1, -999999999), (I64MAX, 999999999), (I64MIN + 1, -999999999), (I64MIN + 1, 0), (-5, -1), (5, 1)):
+        for ty in ("std.Duration", "std.Timestamp"):
+            cases.append({"op": "build", "ty": ty, "secs": str(secs), "nanos": nan})
     for _ in range(n):
         hs = [h32() for _ in range(2)]
         # TimeoutQC: the same entries inserted in several orders (BTreeMap)
@@ -938,7 +1007,7 @@ def build_cases(rng, tier, pool):
             nan = 999999999 * (1 if secs > 0 else -1)
         cases.append({"op": "build", "ty": rng.choice(["std.Duration", "std.Timestamp"]), "secs": str(secs), "nanos": nan})
         cases.append({"op": "build", "ty": "std.BitVector", "bits": [rng.below(2) for _ in range(rng.range(0, 70))]})
-        ip = bytes(rng.below(256) for _ in range(rng.choice([4, 16])))
+        ip = special_ip(rng)
         cases.append({"op": "build", "ty": "std.SocketAddr", "ip": ip.hex(), "port": rng.below(65536),
                       "flow": rng.choice([0, 0, rng.below(1 << 20)]), "scope": rng.choice([0, 0, rng.below(1 << 16)])})
 
@@ -1040,6 +1109,60 @@ def edge2_cases(rng, sc, n):
     return cases
 
 
+def read_varint(b, i):
+    x, sh = 0, 0
+    while True:
+        c = b[i]
+        i += 1
+        x |= (c & 0x7F) << sh
+        sh += 7
+        if c < 0x80:
+            return x, i
+
+
+def parse_mux(b):
+    """canonical mux Handshake bytes -> (sorted accept pairs, sorted connect pairs)"""
+    out = {5: [], 6: []}
+    i = 0
+    while i < len(b):
+        tag, i = read_varint(b, i)
+        ln, i = read_varint(b, i)
+        sub, j, cap = b[i:i + ln], 0, {}
+        i += ln
+        while j < len(sub):
+            t, j = read_varint(sub, j)
+            v, j = read_varint(sub, j)
+            cap[t >> 3] = v
+        out[tag >> 3].append([cap[1], cap[2]])
+    return sorted(out[5]), sorted(out[6])
+
+
+def mux_correspondence(rep, sc, rng):
+    """mux Handshake: decode only (its re-encoding follows a HashMap iteration order)"""
+    gen = Gen(sc, rng, POOL)
+    cases = []
+    for k in range(40 if rep.tier == "quick" else 400):
+        e = gen.message("zksync.network.mux.Handshake", 0, None, 8)
+        if k % 5 == 0 and e:
+            e = e + [e[0]]                       # duplicate capability id
+        b = canon(sc, "zksync.network.mux.Handshake", e)
+        cases.append({"op": "rt", "ty": "mux.Handshake", "hex": b.hex(), "kind": "mux"})
+    outs = run_impl(cases)
+    coq = []
+    for i, (c, o) in enumerate(zip(cases, outs)):
+        if "ok" in o:
+            a, cn = parse_mux(bytes.fromhex(o["ok"]))
+            exp = common.to_obsv([0, a, cn])
+        else:
+            exp = "(OL [OZ 1])"
+        coq.append((i, f'"{c["hex"]}"', exp))
+    mm, samp = common.run_model_cases(
+        "C09mux", "From EC Require Import Model.Wire Model.ProtoSchema Model.ProtoTyped Model.ProtoTyped2.\nOpen Scope string_scope.",
+        "Model.ProtoTyped2.run_mux_case", coq, shard_size=max(10, len(coq) // 16 + 1), sample_ids=[0], timeout=3000)
+    mism = [{"case": cases[i], "impl": outs[i], "model_obs": m} for i, m in sorted(mm.items())]
+    return mism, len(coq), sum(1 for o in outs if "ok" in o)
+
+
 def typed_correspondence(rep, sc, items, routs, rt_cases, bcases, bouts):
     """Model.ProtoTyped.run_rt_case / ProtoTyped2.run_rt_case2 on every decode of a modelled type
     (+ edge streams + the encodings produced by the typed constructions)."""
@@ -1089,8 +1212,11 @@ def typed_correspondence(rep, sc, items, routs, rt_cases, bcases, bouts):
     by_type = {}
     for c, _ in cases:
         by_type[c["ty"]] = by_type.get(c["ty"], 0) + 1
+    mux_mism, mux_n, mux_ok = mux_correspondence(rep, sc, rng)
+    by_type["mux.Handshake (decode only)"] = mux_n
     rep.cov["typed_cases_by_type"] = by_type
-    return mism, samples, len(coq1) + len(coq2)
+    rep.cov["mux_handshake_accepted"] = mux_ok
+    return mism + mux_mism, samples, len(coq1) + len(coq2) + mux_n
 
 
 def replay(path):
